@@ -174,10 +174,19 @@ pub fn record_c01(a: &Args) -> usize {
 
 // ---------------------------------------------------------------- C02
 
+/// Decoding through the stream entry point: Frame::read on the damaged bytes (it takes the first line).
+fn decode_via_read(s: &[u8]) -> Value {
+    let mut cur = std::io::Cursor::new(s.to_vec());
+    match catch(|| Frame::read(&mut cur).map(|f| j::frame_from(&j::frame(&f)))) {
+        Ok(r) => j::decode_result(&r),
+        Err(_) => j::panic_result(),
+    }
+}
+
 fn damage_all(out: &mut TraceOut, enc: &[u8]) {
     let l = enc.len();
     let mut push = |op: &str, i: usize, c: u32, s: &[u8]| {
-        out.emit(json!({"e": "damage", "op": op, "i": i, "c": c, "res": decode(s)}));
+        out.emit(json!({"e": "damage", "op": op, "i": i, "c": c, "res": decode(s), "res_read": decode_via_read(s)}));
     };
     for i in 0..l {
         for c in 0..=255u8 {
@@ -217,6 +226,20 @@ pub fn record_c02(a: &Args) -> usize {
         (3, 3, vec![0xA1]),
         (0x00FF, 0, vec![0x00, 0x10]),
     ];
+    // frames whose tail is the image of another complete frame: data = [filler.., balancing byte, inner length, inner
+    // address, inner type, inner data..]; the outer checksum then equals the inner one, so cutting the text in front of
+    // the inner image leaves a valid frame (a decoder that resynchronises inside a line would accept it)
+    for (fill, inner_data) in [(0usize, vec![]), (1, vec![0x1F]), (3, vec![1, 2, 3])] {
+        let (ia, it) = (0x0103u16, 0x1Fu8);
+        let inner: Vec<u8> = [vec![inner_data.len() as u8, (ia >> 8) as u8, ia as u8, it], inner_data.clone()].concat();
+        let filler: Vec<u8> = (0..fill).map(|i| 0x40 + i as u8).collect();
+        let n = filler.len() + 1 + inner.len();
+        let (oa, ot) = (0x2000u16, 0u8);
+        let head_sum = [n as u8, (oa >> 8) as u8, oa as u8, ot].iter().chain(filler.iter()).fold(0u8, |a, &b| a.wrapping_add(b));
+        let balance = 0u8.wrapping_sub(head_sum);
+        let data: Vec<u8> = [filler, vec![balance], inner].concat();
+        frames.push((oa, ot, data));
+    }
     let n_rand = if thorough { 40 } else { 3 };
     for _ in 0..n_rand {
         let len = if thorough { rng.gen_range(0..=24) } else { rng.gen_range(0..=3) };
